@@ -6,6 +6,6 @@ Theorem cut_trace_prefix : forall c o w k,
   exists pre tl rest,
     snd (fst (run_bytes c o (firstn k w))) = pre ++ tl /\
     snd (fst (run_bytes c o w)) = pre ++ rest /\
-    deliveries_of tl = [].
+    deliveries_of tl = [] /\ (length tl <= 2)%nat.
 Proof. first [exact SmtpCutTrace.cut_trace_prefix | intros; apply SmtpCutTrace.cut_trace_prefix]. Qed.
 Print Assumptions cut_trace_prefix.
